@@ -15,6 +15,7 @@
 #include "momo/details/HashBucketOne.h"
 #include "momo/details/HashBucketLimP.h"
 #include "momo/details/HashBucketOpenN1.h"
+#include "momo/details/HashBucketLimP4.h"
 #include "kit.h"
 using namespace momo;
 typedef unsigned long long ull;
@@ -457,6 +458,46 @@ static void leaf(std::istringstream& is)
 	typedef internal::HashSetBucketItemTraits<HashSetItemTraits<uint64_t, kit::MM>> BIT;
 	std::string what, k; is >> what;
 	if (what == "bops") { bops::run(is); fflush(stdout); return; }
+	if (what == "p4ops" || what == "oneops")
+	{	// AddCrt / Remove / Clear sequences on ONE real BucketLimP4<.., 4, .., true> / BucketOne: metadata bytes, count, IsFull, WasFull, pool index
+		typedef bops::IT IT; std::vector<bops::BOp> ops; std::string tok;
+		while (is >> tok)
+		{
+			bops::BOp o{ tok[0], 0, 0, 0 }; std::vector<ull> v; size_t pos = 1;
+			while (pos < tok.size()) { size_t e = tok.find(':', pos + 1); if (e == std::string::npos) e = tok.size(); v.push_back(std::stoull(tok.substr(pos + 1, e - pos - 1))); pos = e; }
+			if (v.size() > 0) o.a = v[0]; if (v.size() > 1) o.b = v[1]; if (v.size() > 2) o.c = v[2];
+			ops.push_back(o);
+		}
+		MemManagerDefault mm;
+		if (what == "p4ops")
+		{
+			typedef internal::BucketLimP4<IT, 4, MemPoolParams<>, true> P4; static_assert(P4::hashCount == 4 && P4::minMemPoolIndex == 2, "configuration of the generated code");
+			bops::Raw<P4> r; P4::Params pa(mm); bool ok = true;
+			for (auto& o : ops)
+			{
+				size_t cnt = r.b->pvGetCount();
+				if (o.k == 'A') { if (cnt >= 4) { ok = false; break; } ull v = o.a; r.b->AddCrt(pa, [v] (uint64_t* p) { *p = v; }, size_t(o.a), size_t(o.b), size_t(o.c)); }
+				else if (o.k == 'R') { if (o.a >= cnt) { ok = false; break; } r.b->Remove(pa, r.b->GetBounds(pa).GetBegin() + o.a, [] (uint64_t& src, uint64_t& dst) { dst = src; }); }
+				else r.b->Clear(pa);
+			}
+			if (!ok) puts("stuck");
+			else printf("%u %u %u %u %llu %d %d %llu %d\n", unsigned(r.b->mShortHashes[0]), unsigned(r.b->mShortHashes[1]), unsigned(r.b->mShortHashes[2]), unsigned(r.b->mShortHashes[3]),
+				ull(r.b->pvGetCount()), r.b->IsFull() ? 1 : 0, r.b->WasFull() ? 1 : 0, ull(r.b->pvGetMemPoolIndex()), r.b->mPtrState.GetPointer() != nullptr ? 1 : 0);
+			r.b->Clear(pa);
+		}
+		else
+		{
+			typedef internal::BucketOne<IT, 1> One; bops::Raw<One> r; One::Params pa(mm); bool ok = true;
+			for (auto& o : ops)
+			{
+				if (o.k == 'A') { if (r.b->IsFull()) { ok = false; break; } ull v = o.a; r.b->AddCrt(pa, [v] (uint64_t* p) { *p = v; }, size_t(o.a), 0, 0); }
+				else if (o.k == 'R') { if (!r.b->IsFull()) { ok = false; break; } r.b->Remove(pa, r.b->GetBounds(pa).GetBegin(), [] (uint64_t& src, uint64_t& dst) { dst = src; }); }
+				else r.b->Clear(pa);
+			}
+			if (!ok) puts("stuck"); else printf("%llu %d %d\n", ull(r.b->mHashState), r.b->IsFull() ? 1 : 0, r.b->WasFull() ? 1 : 0);
+		}
+		fflush(stdout); return;
+	}
 	if (what == "cap")
 	{
 		ull mc, l; is >> k >> mc >> l; size_t bc = size_t(1) << l; ull cap = 0, sh = 0;
